@@ -11,6 +11,7 @@ from hgv.worker import HarnessError
 from props.c08 import _dict_script, _set_script
 
 ID = "C13"
+ASAN_THOROUGH = True   # thorough tier runs against the AddressSanitizer build
 RULE = ("if_then_else(cond, a, b) - optionally passed on through a nested pass-through graph - over two scripted targets of shape "
         "TS[int], TSS[int] or TSD[int,TS[int]], read by 1-3 consumers below the reference. Condition and target histories give every "
         "relative timing: retarget to a target that last ticked earlier / in the same cycle / never, retarget back, re-publication of the "
